@@ -77,7 +77,7 @@ def replay(w, ctx):
 
 def floors(m, tier):
     c = m['counters']
-    need = 1800 if tier == 'quick' else 25000
+    need = 1800 if tier == 'quick' else 10000
     out = []
     if c.get('c02_status_judged', 0) + 0 < need:
         out.append('only %d statuses judged against the reference (< %d)' % (c.get('c02_status_judged', 0), need))
